@@ -52,3 +52,15 @@ impl HeaderInner {
 impl From<RawDbErr> for Error { #[verifier::external_body] fn from(e: RawDbErr) -> (r: Error) ensures r is RawDB { unimplemented!() } }
 #[verifier::external_body] pub fn vec_region_name_with<I>(name: &StrH) -> StrH { unimplemented!() }
 pub const HEADER_OFFSET: usize = 32;      // size_of::<HeaderInner>() (repr(C): 3 x u32 + u64 + u8, padded): checked by the Kani header harnesses
+
+// ---- the layer above: raw / compressed import_with ----
+#[verifier::external_body] pub struct PagesT { _p: core::marker::PhantomData<u8> }
+impl PagesT {
+    // Pages::import(db, "<name>_pages"): creates the page-table region when it does not exist -- an effect.
+    // C13: only for a vector whose data region carries the header being asked for (i.e. after the refusable base import succeeded)
+    #[verifier::external_body]
+    pub fn import(db: &Database, name: &StrH, Ghost(version): Ghost<Version>, Ghost(format): Ghost<Format>, Tracked(w): Tracked<&mut HW>) -> (r: Result<PagesT>)
+        requires old(w).region_len >= 32, old(w).stored matches Some(h) && h.header_version == HEADER_VERSION && h.vec_version == version && h.format == format
+        ensures *final(w) == *old(w)
+    { unimplemented!() }
+}
